@@ -9,7 +9,8 @@ from harness import c08_lib as L
 PROP = "C08"
 COQ = dict(imports=["Model.Render", "Spec.C08"], in_ty="c08_in", out_ty="c08_out", corr="corr_C08", decide="check_C08",
            inclass="inclass_C08", model="model_C08")
-THEOREMS = ["py_repr_roundtrip", "C08_lex_tokens", "C08_all_leaves_via_repr", "C08_render_wf", "C08_tokens",
+THEOREMS = ["C08_plain_for_conv_rejected", "C08_eval_refuted_unbound_index_name",
+            "py_repr_roundtrip", "C08_lex_tokens", "C08_all_leaves_via_repr", "C08_render_wf", "C08_tokens",
             "C08_raw_quote_breaks", "C08_eval", "C08_decider_sound", "C08_main", "C08_eval_refuted_default_quotes",
             "C08_eval_refuted_quote_flag", "C08_eval_refuted_drop_table_types"]
 TRUSTED = [
@@ -625,6 +626,7 @@ def run_case(h):
     from alembic.operations import ops
     warnings.simplefilter("ignore")
     cfg = h["cfg"]
+    L.CURRENT_NC = int(h["nc"])
     real = build_b(h) if h["stream"] == "B" else build_ops(h)
     try:
         code = L.render_for(real, cfg)
